@@ -30,6 +30,14 @@ func genMultiTask(r *kern.Rng, maxLen int) MultiTask {
 			w = genContainerW(r, "zlib", maxLen)
 		}
 		w.Guard = false
+		if r.Pct(30) {
+			// skewed frequencies: the encoder's code-length limiting path
+			w.Data.Kind, w.Data.P1 = "fib", r.Pick(16, 20, 24, 30, 40)
+			if w.Data.Len < 3000 {
+				w.Data.Len = 3000 + r.Intn(20000)
+			}
+			w.Level = r.Pick(-2, 1, 2, -1)
+		}
 		w.Ops = GenOps(r, w.Data.Len, r.Pick(0, 20, 50), 40)
 		return MultiTask{W: w}
 	}
